@@ -174,6 +174,10 @@ mod worker;
 
 pub(crate) mod sync;
 
+#[cfg(tracing_verif)]
+#[doc(hidden)]
+pub mod __verif;
+
 /// Convenience function for creating a non-blocking, off-thread writer.
 ///
 /// See the [`non_blocking` module's docs][mod@non_blocking]'s for more details.
